@@ -13,6 +13,10 @@ CONSTANTS Slice,    \* which universe
 
 VARIABLE c
 
+\* the other reading of the library members with a named deviation (Sem!StdReading);
+\* selected from a cfg with `CONSTANT StdReading <- UpstreamReading`
+UpstreamReading == "upstream"
+
 N(n) == <<"num", n>>
 V(x) == <<"var", x>>
 S(cps) == <<"str", cps>>
@@ -67,6 +71,7 @@ StrL == {S(<<>>), S(<<97>>), S(<<97, 98>>), S(<<98, 97, 99>>)}
 ArrL == {ArrE(<<>>), ArrE(<<N(1)>>), ArrE(<<N(1), N(2), N(3)>>), ArrE(<<N(1), ErrE>>), ArrE(<<S(<<97>>), ArrE(<<N(2)>>)>>)}
 IxL == {N(0), N(1), N(2), N(5), Un("-", N(1)), S(<<97>>), Nul}
 None == <<"none">>
+SlB == {None, Un("-", N(1)), Un("-", N(2)), Un("-", N(3)), N(0), N(1), N(2)}
 PStr(pi) ==
   CASE pi = 1 ->
          {Idx(a, i) : a \in StrL \cup ArrL, i \in IxL}
@@ -78,6 +83,15 @@ PStr(pi) ==
          {Std(f, <<a>>) : f \in {"length", "type", "toString"}, a \in StrL \cup ArrL \cup {N(1), Nul, T, Fn(<<Pm("x"), Pm("y")>>, N(1))}}
     [] pi = 5 ->
          {Bin("in", a, ObjE(<<Fd("a", v, N(1))>>)) : a \in {S(<<97>>), S(<<98>>), N(1)}, v \in {"d", "h", "v"}}
+    [] pi = 6 ->
+         \* strings with non-ASCII code points (2-, 4-byte in UTF-8), negative / omitted bounds and a step:
+         \* positions are code points, never bytes
+         {<<"slice", s, i, j, k>> : s \in {S(<<104, 233, 108>>), S(<<233, 233, 97>>), S(<<128512, 97, 233, 98>>)},
+                                    i \in SlB, j \in SlB, k \in {None, N(1), N(2)}}
+         \cup {Std("slice", <<S(<<128512, 97, 233, 98>>), IF i = None THEN Nul ELSE i, IF j = None THEN Nul ELSE j, IF k = None THEN Nul ELSE k>>) :
+                 i \in SlB, j \in SlB, k \in {None, N(1), N(2)}}
+         \cup {Std("length", <<s>>) : s \in {S(<<104, 233, 108>>), S(<<128512, 97, 233, 98>>)}}
+         \cup {Idx(s, N(i)) : s \in {S(<<128512, 97, 233, 98>>)}, i \in 0..3}
 
 -----------------------------------------------------------------------------
 (* lazy: locals, arrays, functions - what is not demanded is never run       *)
@@ -215,13 +229,203 @@ PComp(pi) ==
                         ArrE(<<N(2), N(2), N(1)>>), ArrE(<<S(<<97>>), N(1)>>), N(1)}}
 
 -----------------------------------------------------------------------------
+(* lib: library members whose laziness is part of their definition - which   *)
+(* array elements / object fields / arguments are forced, and in which order *)
+(* failures surface.  Leaves make laziness observable: `error "E"` elements  *)
+(* that are / are not needed, observers that do not force the elements       *)
+(* (std.length, one index), wrong-typed arguments, functions of the wrong    *)
+(* arity, and one library call nested in another.                            *)
+SA == S(<<97>>)
+SB == S(<<98>>)
+SAB == S(<<97, 98>>)
+Neg(n) == Un("-", N(n))
+Fx(b) == Fn(<<Pm("x")>>, b)
+Fix(b) == Fn(<<Pm("i"), Pm("x")>>, b)
+Fxa(b) == Fn(<<Pm("x"), Pm("a")>>, b)
+OAB(va, x, vb, y) == ObjE(<<Fd("a", va, x), Fd("b", vb, y)>>)
+\* observers of an array-valued expression
+ObsArr(e) == {e, Std("length", <<e>>), Idx(e, N(0)), Idx(e, N(1))}
+ObsLen(e) == {e, Std("length", <<e>>)}
+
+\* arrays for the one-argument members
+Arr1 == {ArrE(<<>>), ArrE(<<N(1)>>), ArrE(<<ErrE, N(1)>>), ArrE(<<N(1), ErrE>>), ArrE(<<N(3), N(1), N(2)>>),
+         ArrE(<<T, ErrE>>), ArrE(<<F, ErrE>>), ArrE(<<T, F>>), ArrE(<<T, T>>), ArrE(<<F, F>>), ArrE(<<T, N(1)>>),
+         ArrE(<<F, N(1), ErrE>>), ArrE(<<N(1), T, ErrE>>), ArrE(<<ErrE, ErrF>>),
+         ArrE(<<SA, SB>>), ArrE(<<SA, ErrE>>), ArrE(<<SB, SA, SAB>>), ArrE(<<SA, Nul>>), ArrE(<<Nul>>), ArrE(<<SA, N(1)>>),
+         ArrE(<<ArrE(<<SA>>), SB>>), ArrE(<<ArrE(<<SA, ArrE(<<SB, ErrE>>)>>)>>),
+         ArrE(<<ArrE(<<ErrE>>), ArrE(<<N(1)>>)>>), ArrE(<<ArrE(<<N(1)>>), ArrE(<<N(2), N(3)>>)>>),
+         ArrE(<<ArrE(<<N(1)>>), ErrE>>), ArrE(<<ArrE(<<N(1)>>), N(2)>>), ArrE(<<ArrE(<<ArrE(<<N(1)>>), ErrE>>), N(2)>>),
+         ArrE(<<ArrE(<<N(1)>>), SA>>), ArrE(<<N(1), SA>>), ArrE(<<N(2), N(2)>>),
+         SAB, S(<<>>), N(1), Nul, OAB("d", N(1), "d", N(2)), ErrE}
+Unary1 == {"reverse", "flattenDeepArray", "flattenArrays", "all", "any"}
+Unary2 == {"sum", "avg", "deepJoin", "lines", "minArray", "maxArray"}
+
+\* member / contains / count / find / remove / removeAt
+Arr2 == {ArrE(<<>>), ArrE(<<N(1), ErrE>>), ArrE(<<ErrE, N(1)>>), ArrE(<<N(2), N(1), ErrE>>), ArrE(<<N(1), N(2), N(1)>>),
+         ArrE(<<N(2), N(3)>>), ArrE(<<SA, N(1)>>), ArrE(<<ArrE(<<N(1)>>), ArrE(<<ErrE>>)>>),
+         ArrE(<<ArrE(<<N(2)>>), ArrE(<<N(1), ErrE>>)>>), ArrE(<<Fx(V("x")), N(1)>>),
+         S(<<97, 98, 99>>), S(<<>>), N(1), ErrE}
+Elem2 == {N(1), N(2), ErrF, SA, S(<<>>), S(<<98, 99>>), ArrE(<<N(1)>>), Nul, N(0)}
+Scan2(a, x) == {Std("member", <<a, x>>), Std("contains", <<a, x>>), Std("count", <<a, x>>)}
+               \cup ObsArr(Std("find", <<x, a>>)) \cup ObsArr(Std("remove", <<a, x>>))
+At2 == {N(0), N(1), N(5), Neg(1), SA, Nul, ErrF}
+
+\* functions for mapWithIndex / flatMap / filterMap / foldr
+FnIx == {Fix(ArrE(<<V("i"), V("x")>>)), Fix(V("i")), Fix(V("x")), Fx(V("x")),
+         Fn(<<Pm("i"), Pm("x"), Pm("y")>>, N(1)), Fn(<<Pm("i"), Pm("x"), Pd("y", N(5))>>, Bin("+", V("y"), V("i"))),
+         Fix(ErrF), N(1), ErrF}
+ArrH == {ArrE(<<N(1), ErrE>>), ArrE(<<ErrE, N(2)>>), ArrE(<<N(1), N(2), N(3)>>), ArrE(<<>>), SAB, S(<<>>), N(1), Nul, ErrE}
+FnFlat == {Fx(ArrE(<<V("x"), V("x")>>)), Fx(ArrE(<<V("x")>>)), Fx(V("x")),
+           Fx(If(Bin("==", V("x"), N(1)), ErrF, ArrE(<<V("x")>>))), Fx(ArrE(<<ErrF>>)), Fx(Nul),
+           Fx(Bin("+", V("x"), V("x"))), Fx(If(Bin("==", V("x"), SA), Nul, V("x"))),
+           Fn(<<Pm("x"), Pm("y")>>, ArrE(<<V("x")>>)), N(1), ErrF}
+ArrFlat == ArrH \cup {ArrE(<<ArrE(<<N(1)>>), ArrE(<<ErrE, N(2)>>)>>)}
+FnFilt == {Fx(Bin(">", V("x"), N(1))), Fx(T), Fx(F), Fx(V("x")), Fx(ErrF), N(1), Fn(<<Pm("x"), Pm("y")>>, T),
+           Fx(If(Bin("==", V("x"), N(2)), N(0), T))}
+FnMap == {Fx(Bin("*", V("x"), N(2))), Fx(ErrF), Fn(<<Pm("x"), Pm("y")>>, V("x")), N(1)}
+ArrFilt == {ArrE(<<N(1), N(2), N(3)>>), ArrE(<<N(1), ErrE>>), ArrE(<<N(2), ErrE>>), ArrE(<<>>), SAB, N(1)}
+FnFold == {Fxa(Bin("+", V("x"), V("a"))), Fxa(V("x")), Fxa(V("a")), Fxa(ArrE(<<V("x"), V("a")>>)), Fxa(ErrF),
+           Fxa(If(Bin("==", V("x"), N(1)), N(9), V("a"))), Fx(V("x")), N(1), ErrF}
+ArrFold == {ArrE(<<N(1), N(2), N(3)>>), ArrE(<<>>), ArrE(<<N(1), ErrE>>), ArrE(<<ErrE, N(1)>>), ArrE(<<N(2), ErrE, N(1)>>), SAB, N(1), ErrE}
+
+\* constructors
+What == {ArrE(<<ErrE>>), ArrE(<<N(1), ErrE>>), SAB, S(<<>>), ArrE(<<>>), N(1), Nul, ErrE}
+Cnt == {N(0), N(1), N(2), Neg(1), SA, ErrF}
+Lim == {N(0), N(1), N(3), Neg(1), SA, ErrE}
+Sep == {ArrE(<<>>), ArrE(<<N(0)>>), ArrE(<<ErrF>>), S(<<>>), S(<<44>>), N(1), Nul, ErrF}
+JArr == {ArrE(<<ArrE(<<N(1)>>), ArrE(<<N(2)>>)>>), ArrE(<<ArrE(<<ErrE>>), ArrE(<<N(1)>>)>>),
+         ArrE(<<ArrE(<<N(1)>>), Nul, ArrE(<<N(2)>>)>>), ArrE(<<ArrE(<<N(1)>>), SA>>), ArrE(<<SA, SB>>),
+         ArrE(<<SA, Nul, SB>>), ArrE(<<SA, N(1)>>), ArrE(<<SA, ErrE>>), ArrE(<<ErrE, N(1)>>), ArrE(<<N(1), ErrE>>),
+         ArrE(<<>>), ArrE(<<Nul>>), SAB, N(1)}
+SlArr == {S(<<97, 98, 99>>), ArrE(<<N(1), N(2), ErrE>>), ArrE(<<ErrE, N(2), N(3)>>), ArrE(<<>>), N(1), ErrE}
+
+\* objects
+Objs == {OAB("d", ErrE, "d", N(1)), OAB("d", N(1), "h", ErrE), OAB("h", N(2), "d", N(1)), OAB("d", Dot(Self, "b"), "d", N(3)),
+         ObjE(<<>>), ObjE(<<Fd("a", "d", N(1)), OAs(F, None)>>), ObjE(<<Fd("a", "d", N(1)), OAs(T, None)>>),
+         Bin("+", OAB("d", N(1), "d", ErrE), ObjE(<<Fd("b", "d", Bin("+", <<"superf", "a">>, N(1)))>>)),
+         Bin("+", OAB("h", N(1), "d", N(2)), ObjE(<<FdP("a", "d", N(5))>>)),
+         N(1), Nul, ArrE(<<N(1)>>), ErrE}
+KEY == S(<<107, 101, 121>>)
+VALUE == S(<<118, 97, 108, 117, 101>>)
+
+\* scalars
+Vals == {N(0), N(1), N(2), N(7), Neg(1), Neg(2), SA, Nul, T, ErrE, ArrE(<<ErrE>>), OAB("d", ErrE, "d", N(1)), Fx(V("x"))}
+Nums == {N(0), N(1), N(5), Neg(2), SA, ErrE}
+Bools == {T, F, N(1), SA, ArrE(<<N(1)>>), ArrE(<<ErrE>>), Nul, ErrE}
+CmpArrs == {ArrE(<<>>), ArrE(<<N(1)>>), ArrE(<<N(1), N(2)>>), ArrE(<<N(2)>>), ArrE(<<N(1), ErrE>>), ArrE(<<ErrE>>),
+            ArrE(<<SA>>), ArrE(<<N(1), SA>>), SAB, N(1), ErrF}
+
+\* one library call nested in another: producers of (lazy) arrays x consumers
+Base == {ArrE(<<N(1), ErrE>>), ArrE(<<ErrE, N(1)>>), ArrE(<<N(2), N(1)>>)}
+Prod(a) == {Std("reverse", <<a>>), Std("repeat", <<a, N(2)>>), Std("flattenArrays", <<ArrE(<<a, a>>)>>),
+            Std("join", <<ArrE(<<N(0)>>), ArrE(<<a, ArrE(<<ErrF>>)>>)>>), Std("mapWithIndex", <<Fix(V("x")), a>>),
+            Std("mapWithIndex", <<Fix(V("i")), a>>), Std("filterMap", <<Fx(T), Fx(V("x")), a>>),
+            Std("flatMap", <<Fx(ArrE(<<V("x")>>)), a>>), Std("remove", <<a, N(1)>>), Std("removeAt", <<a, N(0)>>),
+            Std("slice", <<a, N(1), Nul, Nul>>), Std("flattenDeepArray", <<a>>), Std("find", <<N(1), a>>),
+            Std("map", <<Fx(ErrF), a>>), Std("makeArray", <<N(2), Fn(<<Pm("i")>>, Idx(a, V("i")))>>),
+            Std("objectValues", <<OAB("d", Idx(a, N(0)), "d", Idx(a, N(1)))>>), Std("range", <<N(0), Std("length", <<a>>)>>),
+            Std("filter", <<Fx(T), a>>)}
+Cons(p) == {Std("length", <<p>>), Idx(p, N(0)), Idx(p, N(1)), Idx(Std("reverse", <<p>>), N(0)),
+            Std("member", <<p, N(1)>>), Std("contains", <<p, N(1)>>), Std("count", <<p, N(1)>>), Std("sum", <<p>>),
+            Std("any", <<Std("map", <<Fx(Bin("==", V("x"), N(1))), p>>)>>),
+            Std("all", <<Std("map", <<Fx(Bin("==", V("x"), N(1))), p>>)>>),
+            Std("foldr", <<Fxa(V("x")), p, N(0)>>), Std("foldr", <<Fxa(V("a")), p, N(0)>>),
+            Std("foldl", <<Fn(<<Pm("a"), Pm("x")>>, V("x")), p, N(0)>>),
+            Std("length", <<Std("flattenArrays", <<ArrE(<<p, p>>)>>)>>), Idx(Std("repeat", <<p, N(2)>>), N(2)),
+            Idx(Std("join", <<ArrE(<<>>), ArrE(<<p>>)>>), N(0)), Idx(Std("removeAt", <<p, N(0)>>), N(0)),
+            Std("length", <<Std("remove", <<p, N(1)>>)>>), Idx(Std("flatMap", <<Fx(ArrE(<<V("x")>>)), p>>), N(1)),
+            Std("isArray", <<p>>), Std("type", <<p>>), Std("length", <<Std("flattenDeepArray", <<p>>)>>),
+            Std("minArray", <<p>>), Std("__array_less", <<p, ArrE(<<N(1), N(0)>>)>>),
+            Let(<<<<"r", p>>>>, ArrE(<<Std("length", <<V("r")>>), Idx(V("r"), N(1))>>))}   \* (t, u are Rewrite's fresh names)
+
+\* small curated part (taken whole by the quick tier): the laziness witnesses of the library members
+\* plus, for every member, one program that yields a value and one that fails
+A1E == ArrE(<<N(1), ErrE>>)
+AE1 == ArrE(<<ErrE, N(1)>>)
+A312 == ArrE(<<N(3), N(1), N(2)>>)
+OEB == OAB("d", ErrE, "d", N(1))
+Must ==
+  {Std("length", <<Std("reverse", <<AE1>>)>>), Idx(Std("reverse", <<A1E>>), N(1)), Idx(Std("reverse", <<A1E>>), N(0)),
+   Std("any", <<ArrE(<<T, ErrE>>)>>), Std("all", <<ArrE(<<F, ErrE>>)>>), Std("any", <<ArrE(<<F, ErrE>>)>>), Std("all", <<ArrE(<<T, ErrE>>)>>),
+   Std("member", <<A1E, N(1)>>), Std("member", <<AE1, N(1)>>), Std("member", <<S(<<97, 98, 99>>), S(<<98, 99>>)>>), Std("member", <<SAB, S(<<>>)>>),
+   Std("contains", <<A1E, N(1)>>), Std("contains", <<AE1, N(1)>>), Std("count", <<ArrE(<<N(1), N(2), N(1)>>), N(1)>>), Std("count", <<A1E, N(1)>>),
+   Std("find", <<N(1), ArrE(<<N(1), N(2), N(1)>>)>>), Std("find", <<N(1), A1E>>), Std("find", <<ErrF, ArrE(<<>>)>>),
+   Std("length", <<Std("remove", <<A1E, N(1)>>)>>), Std("remove", <<ArrE(<<N(2), N(1), ErrE>>), N(3)>>), Std("remove", <<A312, N(1)>>),
+   Idx(Std("removeAt", <<A1E, N(1)>>), N(0)), Std("removeAt", <<A312, N(5)>>), Std("removeAt", <<ArrE(<<>>), ErrF>>), Std("removeAt", <<A312, SA>>),
+   Std("foldr", <<Fxa(V("x")), A1E, ErrF>>), Std("foldr", <<Fxa(V("x")), ArrE(<<N(1), N(2)>>), ErrF>>),
+   Std("foldr", <<Fxa(V("a")), A1E, N(0)>>), Std("foldr", <<ErrF, ArrE(<<>>), N(0)>>), Std("foldr", <<Fxa(ArrE(<<V("x"), V("a")>>)), A312, N(0)>>),
+   Idx(Std("flattenArrays", <<ArrE(<<ArrE(<<ErrE>>), ArrE(<<N(1)>>)>>)>>), N(1)), Std("flattenArrays", <<ArrE(<<ArrE(<<N(1)>>), N(2)>>)>>),
+   Std("length", <<Std("flattenDeepArray", <<ArrE(<<ArrE(<<N(1), ArrE(<<N(2)>>)>>), N(3)>>)>>)>>), Std("length", <<Std("flattenDeepArray", <<AE1>>)>>),
+   Idx(Std("objectValues", <<OEB>>), N(1)), Idx(Std("objectValues", <<OEB>>), N(0)), Std("objectValuesAll", <<OAB("d", N(1), "h", N(2))>>),
+   Std("objectValuesAll", <<N(1)>>), Idx(Idx(Std("objectKeysValues", <<OEB>>), N(1)), VALUE), Idx(Idx(Std("objectKeysValues", <<OEB>>), N(0)), VALUE),
+   Idx(Idx(Std("objectKeysValues", <<OEB>>), N(0)), KEY), Std("objectKeysValuesAll", <<OAB("h", N(1), "d", N(2))>>), Std("objectKeysValuesAll", <<Nul>>),
+   Std("objectHasEx", <<OAB("d", N(1), "h", ErrE), SB, T>>), Std("objectHasEx", <<OAB("d", N(1), "h", ErrE), SB, F>>), Std("objectHasEx", <<OEB, SA, N(1)>>),
+   Std("objectFieldsEx", <<OAB("d", N(1), "h", ErrE), T>>), Std("objectFieldsEx", <<OAB("d", N(1), "h", ErrE), F>>), Std("objectFieldsEx", <<OEB, Nul>>),
+   Std("length", <<Std("repeat", <<ArrE(<<ErrE>>), N(2)>>)>>), Std("repeat", <<SAB, N(2)>>), Std("repeat", <<SAB, Neg(1)>>), Std("repeat", <<N(1), N(2)>>),
+   Std("range", <<N(1), N(3)>>), Std("range", <<N(3), N(1)>>), Std("range", <<N(1), SA>>),
+   Std("avg", <<A312>>), Std("avg", <<ArrE(<<>>)>>), Std("avg", <<A1E>>), Std("sum", <<A312>>), Std("sum", <<A1E>>), Std("sum", <<ArrE(<<N(1), SA>>)>>),
+   Std("deepJoin", <<ArrE(<<SA, ArrE(<<SB, ArrE(<<SA>>)>>)>>)>>), Std("deepJoin", <<ArrE(<<SA, N(1)>>)>>), Std("deepJoin", <<ArrE(<<SA, ErrE>>)>>),
+   Std("lines", <<ArrE(<<SA, SB>>)>>), Std("lines", <<ArrE(<<N(1)>>)>>), Std("lines", <<ArrE(<<>>)>>),
+   Std("minArray", <<A312>>), Std("minArray", <<ArrE(<<>>)>>), Std("minArray", <<ArrE(<<Nul>>)>>), Std("maxArray", <<ArrE(<<SA, SB>>)>>),
+   Std("maxArray", <<ArrE(<<N(1), SA>>)>>), Std("maxArray", <<A312>>),
+   Std("abs", <<Neg(2)>>), Std("abs", <<SA>>), Std("sign", <<Neg(2)>>), Std("sign", <<Nul>>), Std("max", <<N(1), N(2)>>), Std("max", <<N(1), SA>>),
+   Std("min", <<N(1), N(2)>>), Std("min", <<ErrE, N(1)>>), Std("clamp", <<N(5), N(0), N(2)>>), Std("clamp", <<N(1), N(2), ErrE>>), Std("clamp", <<SA, N(1), N(2)>>),
+   Std("isEven", <<N(2)>>), Std("isEven", <<SA>>), Std("isOdd", <<N(7)>>), Std("isOdd", <<Nul>>), Std("isInteger", <<N(1)>>), Std("isInteger", <<ErrE>>),
+   Std("isDecimal", <<N(1)>>), Std("isDecimal", <<ArrE(<<>>)>>), Std("xor", <<T, F>>), Std("xor", <<ErrE, T>>), Std("xnor", <<T, F>>), Std("xnor", <<T, ErrE>>),
+   Std("__array_less", <<ArrE(<<N(1)>>), ArrE(<<N(1), ErrE>>)>>), Std("__array_less", <<ArrE(<<N(1), ErrE>>), ArrE(<<N(2), ErrF>>)>>), Std("__array_less", <<N(1), ArrE(<<>>)>>),
+   Std("__array_less_or_equal", <<ArrE(<<N(1)>>), ArrE(<<N(1)>>)>>), Std("__array_less_or_equal", <<AE1, AE1>>),
+   Std("__array_greater", <<ArrE(<<N(2)>>), A1E>>), Std("__array_greater", <<ArrE(<<SA>>), ArrE(<<N(1)>>)>>),
+   Std("__array_greater_or_equal", <<ArrE(<<>>), ArrE(<<>>)>>), Std("__array_greater_or_equal", <<SAB, SAB>>),
+   Idx(Std("mapWithIndex", <<Fix(ArrE(<<V("i"), V("x")>>)), AE1>>), N(1)), Std("length", <<Std("mapWithIndex", <<Fx(V("x")), A1E>>)>>),
+   Idx(Std("mapWithIndex", <<Fx(V("x")), A1E>>), N(0)), Std("mapWithIndex", <<Fix(V("i")), SAB>>),
+   Idx(Std("flatMap", <<Fx(ArrE(<<V("x"), V("x")>>)), A1E>>), N(1)), Std("length", <<Std("flatMap", <<Fx(ArrE(<<V("x"), V("x")>>)), A1E>>)>>),
+   Std("flatMap", <<Fx(If(Bin("==", V("x"), SA), Nul, Bin("+", V("x"), V("x")))), SAB>>), Std("flatMap", <<Fx(V("x")), A312>>),
+   Std("length", <<Std("filterMap", <<Fx(Bin(">", V("x"), N(1))), Fx(ErrF), A312>>)>>), Std("filterMap", <<Fx(Bin(">", V("x"), N(1))), Fx(Bin("*", V("x"), N(2))), A312>>),
+   Std("length", <<Std("filterMap", <<Fx(T), Fx(V("x")), A1E>>)>>), Std("filterMap", <<Fx(V("x")), Fx(V("x")), A312>>),
+   Idx(Std("join", <<ArrE(<<ErrF>>), ArrE(<<ArrE(<<N(1)>>), ArrE(<<N(2)>>)>>)>>), N(2)), Std("join", <<S(<<44>>), ArrE(<<SA, Nul, SB>>)>>),
+   Std("join", <<S(<<44>>), ArrE(<<SA, N(1), ErrE>>)>>), Std("length", <<Std("join", <<ArrE(<<>>), ArrE(<<A1E, Nul, AE1>>)>>)>>),
+   Std("length", <<Std("slice", <<ArrE(<<ErrE, N(2), N(3)>>), N(1), Nul, Nul>>)>>), Std("slice", <<S(<<97, 98, 99>>), N(0), N(9), N(2)>>),
+   Std("slice", <<A312, Nul, Nul, N(0)>>), Std("slice", <<A312, SA, Nul, Nul>>)}
+  \cup {Std(f, <<v>>) : f \in {"isString", "isNumber", "isBoolean", "isObject", "isArray", "isFunction", "isNull"}, v \in {ErrE, OEB}}
+
+PLib(pi) ==
+  CASE pi = 1 -> UNION {ObsArr(Std(f, <<a>>)) : f \in Unary1, a \in Arr1}
+    [] pi = 2 -> UNION {ObsLen(Std(f, <<a>>)) : f \in Unary2, a \in Arr1}
+    [] pi = 3 -> UNION {Scan2(a, x) : a \in Arr2, x \in Elem2}
+    [] pi = 4 -> UNION {ObsArr(Std("removeAt", <<a, x>>)) : a \in Arr2, x \in At2}
+    [] pi = 5 -> UNION {ObsArr(Std("mapWithIndex", <<g, a>>)) : g \in FnIx, a \in ArrH}
+    [] pi = 6 -> UNION {ObsArr(Std("flatMap", <<g, a>>)) : g \in FnFlat, a \in ArrFlat}
+    [] pi = 7 -> UNION {ObsArr(Std("filterMap", <<g, h, a>>)) : g \in FnFilt, h \in FnMap, a \in ArrFilt}
+    [] pi = 8 -> {Std("foldr", <<g, a, i>>) : g \in FnFold, a \in ArrFold, i \in {N(0), ErrF}}
+    [] pi = 9 -> UNION {ObsArr(Std("repeat", <<w, n>>)) : w \in What, n \in Cnt}
+                 \cup UNION {ObsLen(Std("range", <<a, b>>)) : a \in Lim, b \in Lim}
+    [] pi = 10 -> UNION {ObsArr(Std("join", <<s, a>>)) : s \in Sep, a \in JArr}
+    [] pi = 11 -> UNION {ObsLen(Std("slice", <<a, i, j, k>>)) : a \in SlArr, i \in {Nul, N(0), N(1), SA}, j \in {Nul, N(0), N(2), N(9)},
+                                                               k \in {Nul, N(1), N(2), N(0), ErrF}}
+    [] pi = 12 -> UNION {LET e == Std(f, <<o>>) IN ObsArr(e) \cup {Idx(Idx(e, N(1)), VALUE), Idx(Idx(e, N(0)), KEY), Idx(Idx(e, N(0)), VALUE)} :
+                         f \in {"objectValues", "objectValuesAll", "objectKeysValues", "objectKeysValuesAll"}, o \in Objs}
+                  \cup {Std("objectHasEx", <<o, k, h>>) : o \in {OAB("d", N(1), "h", ErrE), N(1), ErrE}, k \in {SA, SB, S(<<99>>), N(1), ErrF},
+                                                         h \in {T, F, N(1), Nul, ErrE}}
+                  \cup {Std("objectFieldsEx", <<o, h>>) : o \in {OAB("d", N(1), "h", ErrE), ObjE(<<>>), N(1), ErrE}, h \in {T, F, N(1), Nul, ErrF}}
+    [] pi = 13 -> {Std(f, <<v>>) : f \in {"isString", "isNumber", "isBoolean", "isObject", "isArray", "isFunction", "isNull",
+                                         "isEven", "isOdd", "isInteger", "isDecimal", "abs", "sign"}, v \in Vals}
+                  \cup {Std(f, <<a, b>>) : f \in {"xor", "xnor"}, a \in Bools, b \in Bools}
+                  \cup {Std(f, <<a, b>>) : f \in {"max", "min"}, a \in Nums, b \in Nums}
+    [] pi = 14 -> {Std("clamp", <<x, lo, hi>>) : x \in Nums, lo \in Nums, hi \in Nums}
+    [] pi = 15 -> {Std(f, <<a, b>>) : f \in {"__array_less", "__array_less_or_equal", "__array_greater", "__array_greater_or_equal"},
+                                      a \in CmpArrs, b \in CmpArrs}
+    [] pi = 16 -> UNION {UNION {Cons(p) : p \in Prod(a)} : a \in Base}
+    [] pi = 17 -> Must
+
+-----------------------------------------------------------------------------
 NParts ==
   CASE Slice = "arith" -> 4
-    [] Slice = "str" -> 5
+    [] Slice = "str" -> 6
     [] Slice = "lazy" -> 5
     [] Slice = "func" -> 7
     [] Slice = "obj" -> 3
     [] Slice = "comp" -> 12
+    [] Slice = "lib" -> 17
 
 Part(pi) ==
   CASE Slice = "arith" -> PArith(pi)
@@ -230,6 +434,7 @@ Part(pi) ==
     [] Slice = "func" -> PFunc(pi)
     [] Slice = "obj" -> PObj(pi)
     [] Slice = "comp" -> PComp(pi)
+    [] Slice = "lib" -> PLib(pi)
 
 Init == \E pi \in 1..NParts :
           LET U == Part(pi) IN
